@@ -327,3 +327,36 @@ void Memory::dump()
   }
 }
 
+
+#ifdef NAKEN_ASM_VERIF
+uint8_t naken_asm_verif_pass = 0;
+uint32_t naken_asm_verif_stale_count = 0;
+uint32_t naken_asm_verif_stale_first = 0;
+
+uint32_t Memory::verif_count_pass1(uint32_t *first)
+{
+  uint32_t count = 0;
+
+  *first = 0xffffffff;
+
+  for (MemoryPage *page = pages; page != nullptr; page = page->next)
+  {
+    for (uint32_t n = 0; n < PAGE_SIZE; n++)
+    {
+      if (page->debug_line[n] == DL_EMPTY || page->verif_pass[n] != 1)
+      {
+        continue;
+      }
+
+      const uint32_t address = page->address + n;
+
+      if (address < low_address || address > high_address) { continue; }
+
+      if (address < *first) { *first = address; }
+      count++;
+    }
+  }
+
+  return count;
+}
+#endif
